@@ -701,6 +701,31 @@ func (x *Exec) execAssign(n *ast.AssignStmt, st *State) *State {
 			rtypes = append(rtypes, x.typeOf(e))
 		}
 	}
+	if len(n.Lhs) > 1 {
+		// Go evaluates the index and pointer operands on the left before assigning anything; the engine assigns left to
+		// right, so a left-hand side whose operands mention a variable assigned by the same statement is outside the subset
+		assigned := map[types.Object]bool{}
+		for _, lhs := range n.Lhs {
+			if id, ok := ast.Unparen(lhs).(*ast.Ident); ok && id.Name != "_" {
+				if o := x.info.ObjectOf(id); o != nil {
+					assigned[o] = true
+				}
+			}
+		}
+		for _, lhs := range n.Lhs {
+			if _, ok := ast.Unparen(lhs).(*ast.Ident); ok {
+				continue
+			}
+			ast.Inspect(lhs, func(nd ast.Node) bool {
+				if id, ok := nd.(*ast.Ident); ok {
+					if o := x.info.Uses[id]; o != nil && assigned[o] {
+						panic(unsupported("tuple assignment whose left-hand operand %s is assigned by the same statement", id.Name))
+					}
+				}
+				return true
+			})
+		}
+	}
 	for i, lhs := range n.Lhs {
 		if id, ok := lhs.(*ast.Ident); ok && id.Name == "_" {
 			continue
